@@ -104,16 +104,16 @@ Print Assumptions C20_src_filesystem_getitem.
 (* non-vacuity: a directory with an upper-case extension, a sub-directory and a file of another
    kind, and an archive in which two members carry the same record id *)
 Example C20_src_example2 :
-  let g i n := GR i n 7 (Some 1%nat) (Some 2%nat) in
+  let g i n := GR i n 7 [LF None; LF (Some ["ori"%string]); LF (Some ["AmpR"%string; "AmpR"%string])] (Some 2%nat) in
   let dir := FSR [("a.gb"%string, true, g "x"%string 1%nat); ("sub.gb"%string, false, g "y"%string 2%nat);
                   ("b.GBK"%string, true, g "z"%string 3%nat); ("c.txt"%string, true, g "w"%string 4%nat)]
                  ["gb"%string; "gbk"%string] in
   FilesystemRegistry_iter dir = Ok ["a"%string; "b"%string] /\ FilesystemRegistry_len dir = Ok 2
-  /\ FilesystemRegistry_getitem dir "b" = Ok (mk_Item "b" 7 1 2)
+  /\ FilesystemRegistry_getitem dir "b" = Ok (mk_Item "b" 7 (Some "Ampicillin"%string) 2)
   /\ FilesystemRegistry_getitem dir "c" = Err (XKeyError (KeyStr "c"))
   /\
   let arc := EMB [TE "m1" (g "p1"%string 1%nat); TE "m2" (g "p2"%string 2%nat); TE "m3" (g "p1"%string 3%nat)] in
   EmbeddedRegistry_iter arc = Ok ["m1"%string; "m2"%string; "m3"%string] /\ EmbeddedRegistry_len arc = Ok 3
-  /\ EmbeddedRegistry_getitem arc "p1" = Ok (mk_Item "p1" 3 1 2)
+  /\ EmbeddedRegistry_getitem arc "p1" = Ok (mk_Item "p1" 3 (Some "Ampicillin"%string) 2)
   /\ EmbeddedRegistry_getitem arc "m1" = Err (XKeyError (KeyStr "m1")).
 Proof. vm_compute. repeat split. Qed.
